@@ -75,7 +75,8 @@ def build_world(sh, N):
             for fi, fdir in enumerate(e['formals']):
                 tname = enum_sym if ex.get('formal_type') == 'enum' else ext_sym
                 fs.append(M.formal(N(f'itf{ii}_ev{ei}_arg{fi}', f'arg{ii}{ei}{fi}'), tname, fdir))
-            evs.append(M.event(en, e['dir'], 'void' if e['ret'] == 'void' else enum_sym, fs))
+            rt = 'void' if e['ret'] == 'void' else (ext_sym if ex.get('claim_ret') == 'extern' else enum_sym)
+            evs.append(M.event(en, e['dir'], rt, fs))
         if ex.get('formal_type') == 'ambiguous' and ii == 0:
             elements.append(wrap(ins[:-1], M.extern(ext_sym, N('dup_T_value', 'dup::type'))))
         if ex.get('formal_type') == 'shadowed' and ii == 0:
